@@ -305,7 +305,7 @@ def gen_function_visible(bdir):
 class C07(Prop):
     id = "C07"
     title = "calls reach the right function and respect visibility, whatever came before"
-    lean_modules = ["NV.C07.Props", "NV.C07.Witness"]
+    lean_modules = ["NV.C07.Props", "NV.C07.Witness", "NV.C07.OracleTests"]
     theorems = ["NV.C07.visibility_table", "NV.C07.visibility_any_flags", "NV.C07.visibility_lifted",
                 "NV.C07.driver_origins_never_refused", "NV.C07.bsearch_correct", "NV.C07.find_function_correct",
                 "NV.C07.find_offsets_are_path_sums", "NV.C07.cache_transparent_step", "NV.C07.cache_transparent",
@@ -343,6 +343,8 @@ class C07(Prop):
             "program with private/static/public/protected modifiers, overriding, prototypes before and after inherits, "
             "`::f` / `A::f` / local / function-pointer calls in bodies) x 12-45 calls by name from call_other (shared and "
             "copied name string), driver apply, call_out-origin apply and real call_out, with refused and non-existent names, "
+            "call_other on ARRAY targets (objects, file names, non-objects; the function at every position) and on FILE NAME "
+            "targets (loaded / loaded by the call, running create() in between / no such file), heart_beat ticks, "
             "cache clears and forced slot collisions; every case is run on the real driver, by the model on the dumped real "
             "tables and by the specification on the abstract graph; a case is non-trivial when at least one call ran a body")
     not_covered = ["the construction of the function tables (copy_functions, overload_function, define_new_function, epilog, "
